@@ -64,15 +64,19 @@ type lStep struct {
 	Win     string `json:"win"`
 	Req     lReq   `json:"req"`
 	Refused string `json:"refused"`
+	Alg     string `json:"alg"`
+	Ty      int    `json:"ty"`
 }
 
 type lPost struct {
-	Doc    CDoc `json:"doc"`
-	Upd    int  `json:"upd"`
-	Rec    int  `json:"rec"`
-	Deact  bool `json:"deact"`
-	Ao     int  `json:"ao"`
-	Exists bool `json:"exists"`
+	Doc    CDoc   `json:"doc"`
+	Upd    int    `json:"upd"`
+	Rec    int    `json:"rec"`
+	Deact  bool   `json:"deact"`
+	Ao     int    `json:"ao"`
+	Exists bool   `json:"exists"`
+	UpdAlg string `json:"updAlg"`
+	RecAlg string `json:"recAlg"`
 }
 
 type lEdge struct {
@@ -94,10 +98,7 @@ func newLifeEnv(seed int64, ukt, rkt string, h int) *lifeEnv {
 	p := testProtocol(1)
 	p.Patches = append(p.Patches, "remove-also-known-as")
 	// the protocol "matching" the client: the algorithm the requests use comes first
-	p.MultihashAlgorithms = []uint{uint(algCode(h))}
-	if h == 256 {
-		p.MultihashAlgorithms = append(p.MultihashAlgorithms, sha2_512)
-	}
+	p.MultihashAlgorithms = []uint{uint(algCode(h)), uint(sha2_256 + sha2_512 - algCode(h))}
 
 	parser := operationparser.New(p)
 
@@ -116,7 +117,20 @@ func (e *lifeEnv) key(id int, role string) *Key {
 }
 
 func (e *lifeEnv) commit(id int, role string) string {
-	return refCommitment(jwkMap(e.key(id, role).JWK), algCode(e.h))
+	return e.commitAlg(id, role, "same")
+}
+
+// algOf maps the abstract algorithm ("same" as the DID was created with / "other") to a code
+func (e *lifeEnv) algOf(alg string) int {
+	if alg == "other" {
+		return sha2_256 + sha2_512 - algCode(e.h)
+	}
+
+	return algCode(e.h)
+}
+
+func (e *lifeEnv) commitAlg(id int, role, alg string) string {
+	return refCommitment(jwkMap(e.key(id, role).JWK), e.algOf(alg))
 }
 
 var lifePurposes = map[int][]string{
@@ -410,8 +424,20 @@ func aoString(ao int) string {
 }
 
 // build returns the request bytes the two entry levels produce for a step.
-func (e *lifeEnv) build(st *lStep, t int, did string) []built {
-	alg := uint(algCode(e.h))
+func (e *lifeEnv) build(st *lStep, t int, did string, pre *lifeState) []built {
+	alg := uint(e.algOf(st.Alg)) // the algorithm the caller asks for in this step
+
+	// the algorithm of the commitment this step's signing key was committed with
+	pendingAlgName := pre.recAlg
+	if st.Op == "update" {
+		pendingAlgName = pre.updAlg
+	}
+
+	if pendingAlgName == "" {
+		pendingAlgName = "same"
+	}
+
+	pendingAlg := e.algOf(pendingAlgName)
 	from, until := window(st.Win, t)
 
 	var captured []byte
@@ -435,6 +461,9 @@ func (e *lifeEnv) build(st *lStep, t int, did string) []built {
 	case "create":
 		info := &client.CreateRequestInfo{OpaqueDocument: e.docJSON(&st.Req.Doc), RecoveryCommitment: e.commit(st.Nr, "rec"),
 			UpdateCommitment: e.commit(st.Nu, "upd"), MultihashCode: alg}
+		if st.Ty == 1 {
+			info.Type = "0001" // an entity type (request builders only)
+		}
 		if st.Ao != 0 {
 			info.AnchorOrigin = aoString(st.Ao)
 		}
@@ -487,7 +516,7 @@ func (e *lifeEnv) build(st *lStep, t int, did string) []built {
 	case "update":
 		sk := signerKey("upd")
 		patches, perr := e.updatePatches(&st.Req.Upd)
-		nextCommit := e.commit(st.Nu, "upd")
+		nextCommit := e.commitAlg(st.Nu, "upd", st.Alg)
 		nextPub := pubOf(st.Nu, "upd")
 
 		if st.Refused == "reused_key" {
@@ -499,7 +528,7 @@ func (e *lifeEnv) build(st *lStep, t int, did string) []built {
 			l1.err = perr
 		} else {
 			l1.req, l1.err = client.NewUpdateRequest(&client.UpdateRequestInfo{DidSuffix: suffix, Patches: patches, UpdateCommitment: nextCommit,
-				UpdateKey: sk.JWK, MultihashCode: alg, Signer: librarySigner(sk), RevealValue: refReveal(jwkMap(sk.JWK), int(alg)),
+				UpdateKey: sk.JWK, MultihashCode: alg, Signer: librarySigner(sk), RevealValue: refReveal(jwkMap(sk.JWK), pendingAlg),
 				AnchorFrom: from, AnchorUntil: until})
 		}
 
@@ -507,7 +536,7 @@ func (e *lifeEnv) build(st *lStep, t int, did string) []built {
 			l2.skipped = true // the client has no anchoring-window option
 		} else {
 			opts := []update.Option{update.WithMultiHashAlgorithm(alg), update.WithNextUpdatePublicKey(nextPub),
-				update.WithSigner(&apiSigner{librarySigner(sk), sk.JWK}), update.WithOperationCommitment(e.commit(st.Signer, "upd"))}
+				update.WithSigner(&apiSigner{librarySigner(sk), sk.JWK}), update.WithOperationCommitment(e.commitAlg(st.Signer, "upd", pendingAlgName))}
 
 			u := &st.Req.Upd
 			for _, k := range u.AddKeys {
@@ -543,7 +572,7 @@ func (e *lifeEnv) build(st *lStep, t int, did string) []built {
 		}
 	case "recover":
 		sk := signerKey("rec")
-		nextRec, nextUpd := e.commit(st.Nr, "rec"), e.commit(st.Nu, "upd")
+		nextRec, nextUpd := e.commitAlg(st.Nr, "rec", st.Alg), e.commitAlg(st.Nu, "upd", st.Alg)
 		nextRecPub, nextUpdPub := pubOf(st.Nr, "rec"), pubOf(st.Nu, "upd")
 
 		switch st.Refused {
@@ -555,7 +584,7 @@ func (e *lifeEnv) build(st *lStep, t int, did string) []built {
 
 		info := &client.RecoverRequestInfo{DidSuffix: suffix, RecoveryKey: sk.JWK, OpaqueDocument: e.docJSON(&st.Req.Doc),
 			RecoveryCommitment: nextRec, UpdateCommitment: nextUpd, AnchorFrom: from, AnchorUntil: until, MultihashCode: alg,
-			Signer: librarySigner(sk), RevealValue: refReveal(jwkMap(sk.JWK), int(alg))}
+			Signer: librarySigner(sk), RevealValue: refReveal(jwkMap(sk.JWK), pendingAlg)}
 		if st.Ao != 0 {
 			info.AnchorOrigin = aoString(st.Ao)
 		}
@@ -567,7 +596,7 @@ func (e *lifeEnv) build(st *lStep, t int, did string) []built {
 		} else {
 			opts := []recovery.Option{recovery.WithMultiHashAlgorithm(alg), recovery.WithNextRecoveryPublicKey(nextRecPub),
 				recovery.WithNextUpdatePublicKey(nextUpdPub), recovery.WithSigner(&apiSigner{librarySigner(sk), sk.JWK}),
-				recovery.WithOperationCommitment(e.commit(st.Signer, "rec"))}
+				recovery.WithOperationCommitment(e.commitAlg(st.Signer, "rec", pendingAlgName))}
 			if st.Ao != 0 {
 				opts = append(opts, recovery.WithAnchorOrigin(aoString(st.Ao)))
 			}
@@ -594,10 +623,10 @@ func (e *lifeEnv) build(st *lStep, t int, did string) []built {
 	case "deactivate":
 		sk := signerKey("rec")
 		l1.req, l1.err = client.NewDeactivateRequest(&client.DeactivateRequestInfo{DidSuffix: suffix, RecoveryKey: sk.JWK,
-			Signer: librarySigner(sk), RevealValue: refReveal(jwkMap(sk.JWK), int(alg))})
+			Signer: librarySigner(sk), RevealValue: refReveal(jwkMap(sk.JWK), pendingAlg)})
 
 		cerr := sc.DeactivateDID(did, deactivate.WithSigner(&apiSigner{librarySigner(sk), sk.JWK}),
-			deactivate.WithOperationCommitment(e.commit(st.Signer, "rec")))
+			deactivate.WithOperationCommitment(e.commitAlg(st.Signer, "rec", pendingAlgName)))
 		l2.req = captured
 
 		if captured == nil {
@@ -611,8 +640,9 @@ func (e *lifeEnv) build(st *lStep, t int, did string) []built {
 // ---- state ---------------------------------------------------------------------------------
 
 type lifeState struct {
-	rm  *protocol.ResolutionModel
-	did string
+	rm             *protocol.ResolutionModel
+	did            string
+	updAlg, recAlg string
 }
 
 type lifeOutcome struct {
@@ -627,21 +657,24 @@ func (e *lifeEnv) projectState(rm *protocol.ResolutionModel, maxKey int) (lPost,
 
 	p.Doc, extras = e.projectDoc(rm.Doc)
 
-	find := func(c, role string) int {
+	find := func(c, role string) (int, string) {
 		if c == "" {
-			return 0
+			return 0, ""
 		}
 
 		for id := 1; id <= maxKey+2; id++ {
-			if e.commit(id, role) == c {
-				return id
+			for _, a := range []string{"same", "other"} {
+				if e.commitAlg(id, role, a) == c {
+					return id, a
+				}
 			}
 		}
 
-		return -1
+		return -1, "unknown"
 	}
 
-	p.Upd, p.Rec = find(rm.UpdateCommitment, "upd"), find(rm.RecoveryCommitment, "rec")
+	p.Upd, p.UpdAlg = find(rm.UpdateCommitment, "upd")
+	p.Rec, p.RecAlg = find(rm.RecoveryCommitment, "rec")
 
 	switch ao := rm.AnchorOrigin.(type) {
 	case nil:
@@ -662,7 +695,16 @@ func (e *lifeEnv) projectState(rm *protocol.ResolutionModel, maxKey int) (lPost,
 func lifeKey(kind string, st *lStep) string {
 	u := &st.Req.Upd
 
-	return fmt.Sprintf("%s:%s:win=%s:ao=%d:refused=%s:doc=%d,%d,%d:upd=%d,%d,%d,%d,%d,%d", kind, st.Op, st.Win, st.Ao, st.Refused,
+	extra := ""
+	if st.Alg == "other" {
+		extra += ":alg=other"
+	}
+
+	if st.Ty != 0 {
+		extra += ":type"
+	}
+
+	return fmt.Sprintf("%s:%s:win=%s:ao=%d:refused=%s:doc=%d,%d,%d:upd=%d,%d,%d,%d,%d,%d", kind+extra, st.Op, st.Win, st.Ao, st.Refused,
 		len(st.Req.Doc.Keys), len(st.Req.Doc.Svcs), len(st.Req.Doc.Aka),
 		len(u.AddKeys), len(u.RemKeys), len(u.AddSvcs), len(u.RemSvcs), len(u.AddAka), len(u.RemAka))
 }
@@ -691,7 +733,7 @@ func (e *lifeEnv) step(pre *lifeState, st *lStep, t int, want *lPost) lifeOutcom
 			}
 		}()
 
-		builts = e.build(st, t, did)
+		builts = e.build(st, t, did, pre)
 	}()
 
 	advanced := false
@@ -784,6 +826,15 @@ func (e *lifeEnv) step(pre *lifeState, st *lStep, t int, want *lPost) lifeOutcom
 			w.Doc.norm(0)
 			w.Doc.Other = nil
 
+			// a cleared commitment has no algorithm
+			if w.Upd == 0 {
+				w.UpdAlg = ""
+			}
+
+			if w.Rec == 0 {
+				w.RecAlg = ""
+			}
+
 			if !reflect.DeepEqual(p1, w) {
 				fail("state", b.level, "the resolved state is not what the caller asked for", w, p1, b.req)
 				continue
@@ -798,7 +849,18 @@ func (e *lifeEnv) step(pre *lifeState, st *lStep, t int, want *lPost) lifeOutcom
 				nd = "did:sidetree:" + mop.UniqueSuffix
 			}
 
-			out.next = &lifeState{rm: r1, did: nd}
+			ns := &lifeState{rm: r1, did: nd, updAlg: pre.updAlg, recAlg: pre.recAlg}
+
+			switch st.Op {
+			case "create":
+				ns.updAlg, ns.recAlg = "same", "same"
+			case "update":
+				ns.updAlg = st.Alg
+			case "recover":
+				ns.updAlg, ns.recAlg = st.Alg, st.Alg
+			}
+
+			out.next = ns
 		}
 	}
 
@@ -823,7 +885,7 @@ func (e *lifeEnv) stateFor(c *lifeCache, path []lStep) *lifeState {
 	}
 
 	if len(path) == 0 {
-		s = &lifeState{rm: &protocol.ResolutionModel{}, did: ""}
+		s = &lifeState{rm: &protocol.ResolutionModel{}, did: "", updAlg: "same", recAlg: "same"}
 	} else {
 		pre := e.stateFor(c, path[:len(path)-1])
 		s = e.step(pre, &path[len(path)-1], len(path), nil).next
